@@ -2630,7 +2630,14 @@ impl Formatter {
     if self.html {
       format!("<table class=\"mech-table\">{}<tbody class=\"mech-table-body\">{}</tbody></table>",header,rows)
     } else {
-      format!("{}{}", header, rows)
+      // Plain text: `| field<kind> ... | cell ... | cell ... |`
+      let header_text: Vec<String> = node.header.0.iter().map(|field| self.field(field)).collect();
+      let row_text: Vec<String> = node.rows.iter().map(|row| self.table_row(row)).collect();
+      if row_text.is_empty() {
+        format!("| {} |", header_text.join(" "))
+      } else {
+        format!("| {} | {} |", header_text.join(" "), row_text.join(" | "))
+      }
     }
   }
 
@@ -2687,7 +2694,7 @@ impl Formatter {
     if self.html {
       format!("<div class=\"mech-field\"><span class=\"mech-field-name\">{}</span><span class=\"mech-field-kind\">{}</span></div>",name,kind)
     } else {
-      format!("{}: {}", name, kind)
+      format!("{}{}", name, kind)
     }
   }
 
